@@ -195,6 +195,17 @@ class Gen:
                     {"id": "3", "b0": 0x20, "b1": 0x21, "lo": 0x8000, "hi": 0xFFFF, "mask": 0x8000, "ram": False, "m0": 0xA0, "m1": 0xA1}],
     }
 
+    def code_arg(self):
+        """a `{ ... }` argument: closed statements only (it is spliced inside the application's scope)"""
+        r = self.rnd
+        b = []
+        for _ in range(r.randint(0, 3)):
+            if r.random() < 0.7:
+                b.append({"k": "data", "d": r.choice(["db", "dw", "dl"]), "es": [num(r.choice([0, 1, 0x55, 0xFF, 0x1234])) for _ in range(r.choice([1, 2]))]})
+            else:
+                b.append({"k": "op", "mn": r.choice(["nop", "clc", "sei", "rts"]), "shape": "imp", "sfx": "", "e": num(0)})
+        return {"k": "code", "b": b}
+
     def rom_addr(self):
         r = self.rnd
         if self.rom in self.CUSTOM:
@@ -268,7 +279,7 @@ class Gen:
                     out.append({"k": "ateq", "e": num(self.reloc_addr())})
             elif x < 0.97 and self.macros_on and self.macro_defs and in_macro is None:
                 m = r.choice(self.macro_defs)
-                out.append({"k": "apply", "n": m["n"], "as": [self.hole("arg") for _ in m["ps"]]})
+                out.append({"k": "apply", "n": m["n"], "as": [self.code_arg() if p_ in m.get("_code", ()) else self.hole("arg") for p_ in m["ps"]]})
             elif depth < self.maxdepth and in_macro is None and self.macros_on:
                 if r.random() < 0.5:
                     out.append({"k": "for", "v": self.fresh("i"), "a": num(r.choice([0, 1, 3])), "b": num(r.choice([0, 2, 4])),
@@ -285,17 +296,23 @@ class Gen:
         body = []
         if self.macros_on:
             for _ in range(r.choice([0, 1, 2])):
-                ps = [self.fresh("p") for _ in range(r.choice([0, 1, 2]))]
+                ps = [self.fresh("p") for _ in range(r.choice([0, 1, 2, 2, 3]))]
+                # code parameters (spliced with {{p}}) in any position, value parameters in the others
+                code = [p_ for p_ in ps if r.random() < 0.3]
+                vals = [p_ for p_ in ps if p_ not in code]
                 mb = []
                 for _ in range(r.randint(1, 3)):
                     y = r.random()
                     if y < 0.3:
                         mb.append({"k": "label", "n": self.fresh("l")})
-                    elif y < 0.7 and ps:
-                        mb.append({"k": "data", "d": r.choice(["db", "dw", "dl"]), "es": [ident(r.choice(ps))]})
+                    elif y < 0.7 and vals:
+                        mb.append({"k": "data", "d": r.choice(["db", "dw", "dl"]), "es": [ident(r.choice(vals))]})
                     else:
                         mb.append({"k": "data", "d": "dl", "es": [self.hole("t3")]})
-                m = {"k": "macro", "n": self.fresh("m"), "ps": ps, "b": mb}
+                for p_ in code:
+                    for _ in range(r.choice([1, 1, 2])):
+                        mb.insert(r.randint(0, len(mb)), {"k": "splice", "p": p_})
+                m = {"k": "macro", "n": self.fresh("m"), "ps": ps, "b": mb, "_code": code}
                 self.macro_defs.append(m)
                 body.append(m)
         if self.rom in self.CUSTOM:
